@@ -12,7 +12,7 @@ RULE = ('Query of length 1..5; 1..8 candidates (one case in 8: 9..24) with dupli
         'use_c; ndim 1..2 (no psi: LB_Keogh is not a bound under psi). Oracle: exhaustive reference: all reference DTW '
         'distances, those above the threshold dropped, sorted; the returned distance sequence equals its first k entries, '
         'every returned (distance, idx) satisfies distance = dist[idx], indices are distinct (equal up to ties), value = '
-        'distance / len(query). History leg: generated sequences of kbest_matches(k) / best_match() / align(k) on ONE '
+        'distance / len(query). History leg: generated sequences of kbest_matches(k) / best_match() / align(k) (and their *_fast variants) on ONE '
         'object (k going up, down and to None); each answer must equal that of a fresh object. Non-trivial: N >= 3, k < N '
         'and pruning really happened - measured by wrapping dtw.distance / dtw.lb_keogh as seen from the search module: '
         'a candidate was skipped by the lower bound or a call received a threshold tightened below the configured one.')
@@ -114,7 +114,13 @@ def _case_hist(draw):
     n = len(c['cands'])
     ks = st.one_of(st.none(), st.integers(1, n + 1))
     c['ops'] = draw(st.lists(st.one_of(st.tuples(st.just('kbest'), ks), st.tuples(st.just('best')),
-                                       st.tuples(st.just('align'), ks)), min_size=2, max_size=7))
+                                       st.tuples(st.just('align'), ks), st.tuples(st.just('kbest'), ks),
+                                       st.tuples(st.just('kbest_fast'), ks), st.tuples(st.just('best_fast')),
+                                       st.tuples(st.just('align_fast'), ks)), min_size=2, max_size=7))
+    c['omit_use_c'] = draw(st.booleans())
+    if c['ndim'] != 1 or not draw(st.booleans()):
+        # the *_fast variants (the same request answered by the C engine) only in half of the 1-D histories
+        c['ops'] = [(o[0].replace('_fast', ''),) + tuple(o[1:]) for o in c['ops']]
     c['ops'] = [list(o) for o in c['ops']]
     return c
 
@@ -134,7 +140,9 @@ def _mk(case):
         kw['max_dist'] = case['max_dist']
     if case['max_value'] is not None:
         kw['max_value'] = case['max_value']
-    return SubsequenceSearch(q, S, dists_options=opts, use_lb=case['use_lb'], use_c=case['use_c'], **kw)
+    # use_c=False is also expressed by not giving the option at all
+    uc = None if (case.get('omit_use_c') and not case['use_c']) else case['use_c']
+    return SubsequenceSearch(q, S, dists_options=opts, use_lb=case['use_lb'], use_c=uc, **kw)
 
 
 def _answer(matches, limit):
@@ -310,22 +318,25 @@ def run_hist(case):
     ks = []
     for op in case['ops']:
         fresh, _ = libcall(_mk, case)
-        if op[0] == 'kbest':
+        if op[0] in ('kbest', 'kbest_fast'):
             k = op[1]
             holder = []
-            got, exc = libcall(lambda: _answer(holder.append(ss.kbest_matches(k)) or holder[0], n + 2))
+            meth = ss.kbest_matches if op[0] == 'kbest' else ss.kbest_matches_fast
+            got, exc = libcall(lambda: _answer(holder.append(meth(k)) or holder[0], n + 2))
             exp, exc2 = libcall(lambda: _answer(fresh.kbest_matches(k), n + 2))
             if exc is None:
                 _check_container(res, 'hist:kbest', holder[0], got, n + 1)
-        elif op[0] == 'best':
+        elif op[0] in ('best', 'best_fast'):
             k = 1
             if not any(d != ref.inf and d <= thr for d in dists):
                 continue
-            got, exc = libcall(lambda: _answer([ss.best_match()], 2))
+            bm = ss.best_match if op[0] == 'best' else ss.best_match_fast
+            got, exc = libcall(lambda: _answer([bm()], 2))
             exp, exc2 = libcall(lambda: _answer([fresh.best_match()], 2))
         else:
             k = op[1]
-            got, exc = libcall(lambda: [(float(d), int(i)) for d, i in ss.align(k)])
+            al = ss.align if op[0] == 'align' else ss.align_fast
+            got, exc = libcall(lambda: [(float(d), int(i)) for d, i in al(k)])
             exp, exc2 = libcall(lambda: [(float(d), int(i)) for d, i in fresh.align(k)])
         ks.append(k)
         if exc:
@@ -339,7 +350,7 @@ def run_hist(case):
         if len(gd) != len(ed) or not all(ref.close(a, b) for a, b in zip(gd, ed)):
             res.fail('hist:differs', '%r after %r: shared object %r, fresh object %r' % (op, ks[:-1], got, exp))
             continue
-        if op[0] in ('kbest', 'best'):
+        if op[0] in ('kbest', 'best', 'kbest_fast', 'best_fast'):
             _check_answer(res, 'hist:' + op[0], case, k, got, dists)
     kk = [n + 2 if k is None else k for k in ks]
     res.nontrivial = n >= 3 and len(ks) >= 2 and any(b < a for a, b in zip(kk, kk[1:]))
